@@ -67,7 +67,10 @@ CLAIMED = {
              "are content of the newly selected stream only (trace law over the handler's observations); C09_handler_reads_with_writes - the same "
              "trace law for EVERY handler script of the family, writes and flushes interleaved anywhere (all eleven opcodes, write faults included); C09_gate / C09_initial_gate / "
              "C09_writeable - the writeable flag is opened only by a successful parser call while the active stream is the role's final one (or "
-             "at construction for roles whose first stream is final) and never closed. Tie: differential execution of handler scripts "
+             "at construction for roles whose first stream is final) and never closed; C09_bodies_in_order - over a whole connection of the "
+             "one-outstanding client, handler invocation i starts with request i and the content still to come of EVERY input stream (the K / F "
+             "the trace law reads from) is exactly that stream's content in the records sent for request i, nothing of another request. "
+             "Tie: differential execution of handler scripts "
              "(all ops, buffer sizes 0..n) over cutting/Pending transports with mid-stream management records.",
         design="6/C09", technique="Coq proof (conservation record acct over poll_input / await_input / run_handler; trace law for stream switches; gate lemmas) + differential execution of scripted handlers",
         note="writeable() returning Ok with the gate still closed is possible only after a parser error (observation O1 in DESIGN.md, outside the property's compliant-client clause)."),
